@@ -245,6 +245,14 @@ def rules():
     bad = [(['-x', S(0), '-y', S(0)], ['d2'], []), (['-x', S(0), '-z', S(0)], ['d2'], []), (['-y', S(0), '-z', S(0)], ['d2'], []), (['-z', S(0), '-y', S(0), '-f'], ['d1'], []),
            (['-x', S(0), '-y', S(1), '-z', S(0)], ['d2', 'd1'], []), (['-x', S(1), '-y', S(0), '-z', S(0)], ['d2', 'd1'], []), (['-z', S(0), '-x', S(0), '-y', S(1)], ['d2', 'd1'], [])]
     fam.append((12, ok, bad))
+    # cfg 18: cardinality exact(2) / range(2,3), initially set flag, deprecated / replaced arguments, value+constant pair
+    ok = [(['-c', S(0) + ',' + S(1)], ['d1', 'd2'], ['c=#0,#1', 'g=1']), (['-c', S(0), '--count=' + S(1)], ['d1', 'd2'], ['c=#0,#1']), ([], [], ['c=_', 'v=_', 'g=1']), (['-v', S(0) + ',' + S(1)], ['d1', 'd2'], ['v=#0,#1']),
+          (['-v', S(0) + ',' + S(1) + ',' + S(2)], ['d1', 'd2', 'd1'], ['v=#0,#1,#2']), (['-v', S(0), '-v', S(1), '-f', '-v', S(2)], ['d1', 'd2', 'd1'], ['v=#0,#1,#2', 'f=1']), (['-u'], [], ['g=0']), (['--unset', '-f'], [], ['g=0', 'f=1']),
+          (['-p', S(0)], ['s3'], ['s=$0', 'u=7']), (['--pair=' + S(0), '-f'], ['s2'], ['s=$0', 'u=7', 'f=1']), (['-f'], [], ['s=_', 'u=_', 'f=1'])]
+    bad = [(['-c', S(0)], ['d2'], []), (['-c', S(0) + ',' + S(1) + ',' + S(2)], ['d1', 'd1', 'd1'], []), (['-c', S(0), '-c', S(1), '-c', S(2)], ['d1', 'd1', 'd1'], []), (['-c', S(0) + ',' + S(1), '-f', '-c', S(2)], ['d1', 'd1', 'd1'], []),
+           (['-v', S(0)], ['d2'], []), (['-v', S(0) + ',' + S(1) + ',' + S(2) + ',' + S(0)], ['d1', 'd1', 'd1'], []), (['-v', S(0) + ',' + S(1), '-v', S(2) + ',' + S(0)], ['d1', 'd1', 'd1'], []), (['-v', S(0), '-f'], ['d1'], []),
+           (['-u', '-u'], [], []), (['-d', S(0)], ['d2'], []), (['--dep=' + S(0)], ['d1'], []), (['-r', S(0)], ['d2'], []), (['--repl', S(0), '-f'], ['d2'], []), (['-f', '--de', S(0)], ['d1'], []), (['-p'], [], []), (['-p', S(0), '-p', S(1)], ['s2', 's2'], [])]
+    fam.append((18, ok, bad))
     # cfg 4: one_of(a;b)
     ok = [(['-a'], [], ['a=1']), (['-b'], [], ['b=1']), (['-n', S(0), '-b'], ['d2'], ['b=1', 'n=#0']), (['-a', '--number=' + S(0)], ['d2'], ['a=1', 'n=#0'])]
     bad = [([], [], []), (['-n', S(0)], ['d2'], []), (['-a', '-b'], [], []), (['-b', '-n', S(0), '-a'], ['d2'], [])]
